@@ -85,8 +85,9 @@ static void h_op(void)
     if (R->type == eslRND_MERSENNE) { if (R->mti >= 624) esl_random_uint32(R); R->mt[R->mti] = (uint32_t) h_argu("w", 0); }
     h_out("ok");
   } else if (!strcmp(op, "pokeraw64")) { /* test hook: force the table word the next 64-bit draw will temper */
-    if (R64->mti >= 312) esl_rand64(R64);
-    R64->mt[R64->mti] = h_argu("w", 0);
+    int off = (int) h_argi("off", 0);      /* off=k: the word k draws ahead */
+    while (R64->mti + off >= 312) esl_rand64(R64);
+    R64->mt[R64->mti + off] = h_argu("w", 0);
     h_out("ok");
   } else if (!strcmp(op, "new64")) {
     if (R64) esl_rand64_Destroy(R64);
@@ -109,6 +110,26 @@ static void h_op(void)
   } else if (!strcmp(op, "dbl64"))     { h_out("ok %s", h_dbits(esl_rand64_double(R64)));
   } else if (!strcmp(op, "dblclosed")) { h_out("ok %s", h_dbits(esl_rand64_double_closed(R64)));
   } else if (!strcmp(op, "dblopen"))   { h_out("ok %s", h_dbits(esl_rand64_double_open(R64)));
+  } else if (!strcmp(op, "gauss")) {
+    h_out("ok %s", h_dbits(esl_rnd_Gaussian(R, h_argbits("mean"), h_argbits("sd"))));
+  } else if (!strcmp(op, "gamma")) {
+    h_out("ok %s", h_dbits(esl_rnd_Gamma(R, h_argbits("a"))));
+  } else if (!strcmp(op, "dirichlet")) {
+    double *alpha = NULL, *p; int K, i; char *buf, *q;
+    if (h_arg("alpha")) K = parse_bits_list(h_arg("alpha"), &alpha); else K = (int) h_argi("k", 1);
+    p = malloc(sizeof(double) * (K ? K : 1)); buf = malloc(17 * (size_t)(K + 1) + 8); q = buf;
+    esl_rnd_Dirichlet(R, alpha, K, p);
+    q += sprintf(q, "ok ");
+    for (i = 0; i < K; i++) q += sprintf(q, "%s%s", i ? "," : "", h_dbits(p[i]));
+    h_out("%s", buf); free(buf); free(p); free(alpha);
+  } else if (!strcmp(op, "mem")) {
+    int n = (int) h_argi("n", 0); unsigned char *buf = malloc(n ? n : 1);   /* exact size: ASan sees buf[n] */
+    esl_rnd_mem(R, buf, n);
+    h_out("ok %s", n ? h_hex(buf, n) : "-"); free(buf);
+  } else if (!strcmp(op, "floatstr")) {
+    char *str = malloc(20);                                                  /* the documented allocation: 20 chars */
+    esl_rnd_floatstring(R, str);
+    h_out("ok %s", str); free(str);
   } else h_out("bad-op");
 }
 int main(void) { return h_main(); }
